@@ -171,16 +171,18 @@ fn check_edge(db: &LayoutDb, e: &Edge, idx: usize, seed: u64, sink: &Sink, mode:
 		}
 	} else {
 		// C08: the last event is an unknown event accepted by the model: the game is untouched
-		if last.k == "unk" && e.out == "run" {
+		// ... also when the unknown event arrives wrapped in message-splitter blocks
+		let wrapped_unknown = last.k == "split" && last.id == 0 && last.x <= 512 && (last.f == 0 || ![61i64, 53, 54, 55, 56, 57, 58, 59, 60].contains(&last.p));
+		if (last.k == "unk" || wrapped_unknown) && e.out == "run" {
 			let n = e.hist.len();
 			let with = observe_prefix(&bytes, n);
 			let without = observe_prefix(&bytes, n - 1);
 			match (with, without) {
 				(Some((c1, code, br1)), Some((c0, _, br0))) => {
 					if c1 != c0 {
-						viols.push(viol("unknown_event", &cls, "mismatch", "frame data changed by an unknown event".into()));
+						viols.push(viol("unknown_event", &cls, "mismatch", "the parsed game (frame data, Gecko codes or Game End) was changed by an unknown event".into()));
 					}
-					if code != UNK_CODE {
+					if last.k == "unk" && code != UNK_CODE {
 						viols.push(viol("unknown_event", &cls, "mismatch", format!("parse_event returned {:#x}", code)));
 					}
 					if br1 <= br0 {
@@ -197,8 +199,9 @@ fn check_edge(db: &LayoutDb, e: &Edge, idx: usize, seed: u64, sink: &Sink, mode:
 	}
 }
 
-/// Columns, last returned code and bytes_read after the first `n` events (None if any step fails).
-fn observe_prefix(bytes: &[u8], n: usize) -> Option<(cols::Cols, u8, usize)> {
+/// Game observables (frame columns, Gecko codes, Game End), last returned code and bytes_read after the
+/// first `n` events (None if any step fails).
+fn observe_prefix(bytes: &[u8], n: usize) -> Option<((cols::Cols, Option<(Vec<u8>, u32)>, bool), u8, usize)> {
 	let mut r = FragReader::new(bytes, Frag::Whole);
 	guard(|| slippi::de::parse_header(&mut r, None)).ok()?;
 	let mut st = guard(|| slippi::de::parse_start(&mut r, None)).ok()?;
@@ -206,7 +209,9 @@ fn observe_prefix(bytes: &[u8], n: usize) -> Option<(cols::Cols, u8, usize)> {
 	for _ in 0..n {
 		code = guard(|| slippi::de::parse_event(&mut r, &mut st, None)).ok()?;
 	}
-	Some((cols::from_mutable(st.frames()), code, st.bytes_read()))
+	let gecko = peppi::game::Game::gecko_codes(&st).as_ref().map(|g| (g.bytes.clone(), g.actual_size));
+	let ended = peppi::game::Game::end(&st).is_some();
+	Some(((cols::from_mutable(st.frames()), gecko, ended), code, st.bytes_read()))
 }
 
 pub fn cmd_edges(a: &Args) {
@@ -364,14 +369,26 @@ fn mutants_of(base: &[u8], r: &mut Rng, nrandom: usize) -> Vec<(String, Vec<u8>)
 
 fn check_faults(bytes: &[u8], cls: &str, sink: &Sink) {
 	// an I/O error injected at any read call must surface as an error
+	let shared = std::sync::Arc::new(bytes.to_vec());
+	let mut dog = Watchdog::new();
+	let dl = Duration::from_secs(20);
 	for (skip, hash) in [(false, false), (true, true), (true, false)] {
-		let (base, _, calls) = read_frag(bytes, Frag::Fixed(64), skip, hash, None);
+		let (base, _, calls) = match crate::streamchk::read_frag_guarded(&mut dog, dl, &shared, bytes.len(), Frag::Fixed(64), skip, hash, None) {
+			Some(x) => x,
+			None => return,
+		};
 		if !base.is_ok() {
 			return;
 		}
 		for k in 0..calls {
 			sink.count(fnv(bytes) ^ ((k as u64) << 3 | (skip as u64) << 1 | hash as u64), true);
-			let (o, _, _) = read_frag(bytes, Frag::Fixed(64), skip, hash, Some(k));
+			let o = match crate::streamchk::read_frag_guarded(&mut dog, dl, &shared, bytes.len(), Frag::Fixed(64), skip, hash, Some(k)) {
+				Some((o, _, _)) => o,
+				None => {
+					sink.report(&viol("io_fault", &format!("{},skip={},hash={}", cls, skip, hash), "hang", format!("no return within 20 s after a read error injected at call {}", k)), &|| json!({"fail_at": k}));
+					return;
+				}
+			};
 			let v = match o {
 				Outcome::Err(_) => None,
 				Outcome::Ok(_) => Some(viol("io_fault", &format!("{},skip={},hash={}", cls, skip, hash), "mismatch", format!("a read error injected at read call {} of {} was swallowed: the read succeeded", k, calls))),
